@@ -150,6 +150,8 @@ fn main() {
 	}
 	let start = Instant::now();
 	let tier = args.tier;
+	// created first: its clock is the run's wall time
+	let mut ev = Evidence::new(ID, tier, args.seed, Level::Exploration);
 	let (cfg, cap) = cfg_for(tier, &args);
 	let wall_cap = if args.wall_cap_s > 0 { args.wall_cap_s } else if tier.is_thorough() { 2400 } else { 55 };
 	let deadline = start + Duration::from_secs(wall_cap);
@@ -207,11 +209,11 @@ fn main() {
 			return None;
 		}
 		let t0 = Instant::now();
-		let out = (match w {
+		let out = match w {
 			Work::Case { t, idx, mutated } => table[*t].run_case(*idx, *mutated, &cfg),
 			Work::Short { t } => table[*t].run_short(&cfg),
 			Work::Unknown { ids, maxlen } => run_unknown(ids, *maxlen, collect),
-		});
+		};
 		Some((out, t0.elapsed().as_secs_f64()))
 	});
 	let too_short = run_too_short();
@@ -284,7 +286,6 @@ fn main() {
 	digests.dedup();
 
 	// ---- evidence ----
-	let mut ev = Evidence::new(ID, tier, args.seed, Level::Exploration);
 	let mut total = Stats::default();
 	for s in &per_type {
 		total.merge(s);
